@@ -8,15 +8,15 @@ HERE = os.path.dirname(os.path.dirname(os.path.abspath(__file__)))
 
 NOTES = {
     'C01': 'Trusted: ast grammar docs, T1/T2 tables in sa/pyref.py, frozen helper summaries (re-validated each run). Depth-1 '
-           'templates (opaque children create no regions; continuity rule covers region-creating children). Not decided: '
+           'templates (opaque children create no regions; continuity rule covers region-creating children; a child is refined to a real node only where the extractor asks what it is). The lookups themselves are interpreted on the region graph of every construct rebuilt from supp\'s own Flow objects (356 lookups). Not decided: '
            'value-level lookup for arbitrary programs, star-import resolution, builtins, anything depending on Project. API-level glue (which table is consulted, what is marked, copied, sorted, caught) is decided by bounded abstract execution on stub collaborators (sa/api_model.py): exact for the enumerated scenarios, not a proof for all inputs.',
-    'C02': 'Trusted: reference CFG templates T3 (C02 domain). Not decided: position cut of names_at for arbitrary layouts, '
+    'C02': 'Trusted: reference CFG templates T3 (C02 domain). The lookups are interpreted on the region graph of every construct rebuilt from supp\'s own Flow objects, in the state the extractor leaves them in. Not decided: position cut of names_at for arbitrary layouts, '
            'inter-scope reads, evaluation in declarations() beyond the alternatives list. API-level glue (which table is consulted, what is marked, copied, sorted, caught) is decided by bounded abstract execution on stub collaborators (sa/api_model.py): exact for the enumerated scenarios, not a proof for all inputs.',
     'C03': 'Trusted: reference CFG templates T3 (exceptions that no handler catches are outside the domain). get_expr_end is interpreted on every '
            'expression class and on 42 concrete layouts. Not decided: how a repaired extractor treats dead regions after return/raise in every join '
            '(C03-R4 only requires that return/raise differ observably from a plain statement; today they do not: recorded findings).',
     'C04': 'Trusted: typed call graph from the repository\'s # type: comments. Cycles through EvalCtx.evaluate are listed, not '
-           'armed. Not decided: equality of answers under concrete query orders. API-level glue (which table is consulted, what is marked, copied, sorted, caught) is decided by bounded abstract execution on stub collaborators (sa/api_model.py): exact for the enumerated scenarios, not a proof for all inputs.',
+           'armed. A memo keyed by the extents in progress is accepted on its supporting fact (the guard registers itself where the key is taken from); order independence is decided by interpreting the lookups on the loop region graphs (for / async for / while; compound, simple and nested-loop body statements; every pair of read positions). Not decided: equality of answers under concrete query orders beyond those shapes. API-level glue (which table is consulted, what is marked, copied, sorted, caught) is decided by bounded abstract execution on stub collaborators (sa/api_model.py): exact for the enumerated scenarios, not a proof for all inputs.',
     'C05': 'Trusted: T1 table. Not decided: agreement with symtable on real files; free-variable resolution through several '
            'levels beyond the modelled chain.',
     'C06': 'Not decided: that evaluation reaches the right class for an arbitrary expression, import forms, descriptors beyond '
@@ -27,7 +27,7 @@ NOTES = {
     'C09': 'Not decided: equality of complete answers after a concrete edit history (the module cache itself is explored over all histories up to length 3/5); mtime granularity; deletion/shadowing. API-level glue (which table is consulted, what is marked, copied, sorted, caught) is decided by bounded abstract execution on stub collaborators (sa/api_model.py): exact for the enumerated scenarios, not a proof for all inputs.',
     'C10': 'Interpretation: "parameter of a method" = parameter of a def or lambda whose enclosing scope is a class body. Not '
            'decided: whether `used` is set for the right bindings (C02), the "never read in the file" premise. API-level glue (which table is consulted, what is marked, copied, sorted, caught) is decided by bounded abstract execution on stub collaborators (sa/api_model.py): exact for the enumerated scenarios, not a proof for all inputs.',
-    'C11': 'Trusted: CPython node positions (byte columns; the tree supp analyses must have character columns: column-unit model on non-ASCII texts). Import aliases, def and class names are positioned by text search: supp\'s find_id_loc is interpreted with the call shapes of E1 on a corpus of 39 layouts (exact for those layouts, not for all texts). API-level glue (which table is consulted, what is marked, copied, sorted, caught) is decided by bounded abstract execution on stub collaborators (sa/api_model.py): exact for the enumerated scenarios, not a proof for all inputs.',
+    'C11': 'Trusted: CPython node positions (byte columns; the tree supp analyses must have character columns: column-unit model on non-ASCII texts). Import aliases, def and class names are positioned by text search: supp\'s search helper (found structurally: a method of SourceScope or Source handing its first parameter to str.find) is interpreted with the call shapes of E1 on a corpus of 39 layouts, CRLF texts among them; positions computed from parser positions and identifier lengths are evaluated on the same corpus (exact for those layouts, not for all texts). API-level glue (which table is consulted, what is marked, copied, sorted, caught) is decided by bounded abstract execution on stub collaborators (sa/api_model.py): exact for the enumerated scenarios, not a proof for all inputs.',
     'C12': 'Not decided: mark transparency (a relation between two analyses of every file and position). API-level glue (which table is consulted, what is marked, copied, sorted, caught) is decided by bounded abstract execution on stub collaborators (sa/api_model.py): exact for the enumerated scenarios, not a proof for all inputs.',
     'C13': 'Trusted: token-start order is layout invariant. Not decided: equality of diagnostics between concrete layouts. API-level glue (which table is consulted, what is marked, copied, sorted, caught) is decided by bounded abstract execution on stub collaborators (sa/api_model.py): exact for the enumerated scenarios, not a proof for all inputs.',
     'C14': 'Trusted: struct format semantics (CPython), the transcription of the spec table in sa/msgpack_spec.py. Not decided: '
